@@ -351,6 +351,15 @@ func (r *Runner) op(id uint64) *OpSpec {
 	return &o
 }
 
+// maxStepsFactor: C05's enumerating operations make long runs; its verdict on a call that does not end comes from the
+// per-operation bound (SetOpLimit), so the bound on the whole run can be generous.
+func maxStepsFactor(prof string) int64 {
+	if prof == "C05" {
+		return 10
+	}
+	return 1
+}
+
 // frugalStacks keeps the goroutines of a stack dump that are inside the code under test.
 func frugalStacks(all string) string {
 	var out []string
@@ -430,7 +439,7 @@ func (r *Runner) Run() {
 			})
 		}
 		cfg := verifsim.Config{Seed: model.Mix(spec.Seed, uint64(round)), Strategy: spec.Sched.Strategy, Den: spec.Sched.Den, PCTDepth: spec.Sched.PCTDepth,
-			PCTSteps: int64(len(spec.Hist)/rounds) * 400, GCEvery: spec.Sched.GCEvery, Pool: spec.Pool, MaxSteps: 60_000_000}
+			PCTSteps: int64(len(spec.Hist)/rounds) * 400, GCEvery: spec.Sched.GCEvery, Pool: spec.Pool, MaxSteps: 60_000_000 * maxStepsFactor(spec.Prof)}
 		if lo := round * spec.Tasks; lo+spec.Tasks <= len(spec.Sched.StartAt) {
 			cfg.StartAt = spec.Sched.StartAt[lo : lo+spec.Tasks]
 		} else if round == 0 {
@@ -456,7 +465,7 @@ func (r *Runner) Run() {
 			break
 		}
 	}
-	total.Deadlock, total.NoProgress = res.Deadlock, res.NoProgress
+	total.Deadlock, total.NoProgress, total.OpBound = res.Deadlock, res.NoProgress, res.OpBound
 	res = total
 	for ti, t := range r.ts {
 		r.stats.merge(t)
@@ -477,7 +486,10 @@ func (r *Runner) Run() {
 		r.stats.viol++
 	}
 	if res.NoProgress != "" {
-		if spec.Prof == "C05" {
+		if spec.Prof == "C05" && !res.OpBound {
+			// the whole run was long (many enumerating operations on large definitions): nothing to judge
+			r.J.put(&Rec{K: "N", Msg: "run ended on its overall step bound (" + res.NoProgress + "); no single call exceeded its own bound"})
+		} else if spec.Prof == "C05" {
 			// single task, one decode at a time: the operation in flight did not terminate within the step bound
 			r.J.put(&Rec{K: "V", Prop: "C05", Sig: "C05/does-not-terminate", Msg: "DecodeObject did not return within the step bound: " + res.NoProgress + " (the input in flight is the last 'b' record)"})
 		} else {
@@ -1020,7 +1032,12 @@ func (r *Runner) decodeOnce(op *OpSpec, st *Step, sd *model.StructDef, m *messag
 		a0 = heapAllocs()
 	}
 	s0 := verifsim.TaskSteps()
+	if r.Spec.Prof == "C05" {
+		// a decode that loops is stopped here, inside the call (far above the proportionality bound that is judged)
+		verifsim.SetOpLimit(int64(2_000_000 + 8192*len(in)))
+	}
 	n, err, pc, pt := callDec(in, dst.Interface())
+	verifsim.SetOpLimit(0)
 	steps := verifsim.TaskSteps() - s0
 	var alloc uint64
 	if measure {
